@@ -183,6 +183,9 @@ class FactFlow:
                 out.add(("LEN>=", norm(c.args[0]), "1"))
             return out
         if isinstance(c, ast.Call) and isinstance(c.func, ast.Name) and c.func.id == "isinstance":
+            # an instance of a named class is not None
+            if truth and len(c.args) == 2 and "None" not in norm(c.args[1]):
+                out.add(("NN", norm(c.args[0])))
             return out
         if truth:
             t = norm(c)
